@@ -136,7 +136,8 @@ class KLpq(CallableModel):
     def _call(self, *args, **kwargs) -> torch.Tensor:
         samples = kwargs.get('samples', self.samples)
         self.q.sample(samples)
-        log_w = self.p() - self.q()
+        # self-normalise over all the samples, whatever the sample shape
+        log_w = (self.p() - self.q()).reshape(-1)
         log_w_norm = log_w - torch.logsumexp(log_w, -1)
         return torch.sum(log_w_norm.exp() * log_w)
 
